@@ -219,3 +219,18 @@ func genConnection(r *hx.Rand, c cfgIn) wireHdr {
 	sep := r.Pick([]string{", ", ",", " , ", ",\t"})
 	return wireHdr{caseVariant(r, "Connection"), sp(strings.TrimSpace(strings.Join(toks, sep)))}
 }
+
+// genBlankLines: a managed header sent with nothing in it - one or several lines that are empty (or, where the
+// request does not travel over a socket, blank). "Present but empty" is a class of its own: Get() returns "",
+// the value slice is non-nil, a filter that drops empty values ends with an empty or nil slice.
+func genBlankLines(r *hx.Rand, name string, onWire bool) []wireHdr {
+	vals := []string{"", "", " ", "\t", "  "}
+	if onWire {
+		vals = []string{""}
+	}
+	var out []wireHdr
+	for n := 1 + r.Intn(3); n > 0; n-- {
+		out = append(out, wireHdr{caseVariant(r, name), sp(r.Pick(vals))})
+	}
+	return out
+}
